@@ -374,6 +374,8 @@ func main() {
 		case "failed":
 			failed++
 			fmt.Printf("FAILED   %s  [%s] at %s (sat by %s, %.2fs) path %s\n", o.Name, o.Kind, o.Pos, o.Solver, o.Time, o.Trail)
+		case "skipped":
+			unknown++
 		default:
 			unknown++
 			fmt.Printf("UNKNOWN  %s  [%s] at %s (%s) path %s\n", o.Name, o.Kind, o.Pos, firstLines(o.Output, 2), o.Trail)
